@@ -21,14 +21,18 @@ def run(ctx, model_ok, deep=False):
 '''
 specs = {
  "c01": dict(doc="C01 -- no token accepted without a valid signature: theorems + verify-sig mutation suite on both providers + matrix sample.",
-   mods=["Jwt.Props.C01"], files=["Jwt/Props/C01.lean"], gen=0,
-   level="Lean theorem C01_sound for every Crypto oracle, JSON codec, provider, checker state, callback and token: rc=0 with a key => token splits at its first two dots, header alg = pinned alg, and the third segment is oracle-valid under that key/alg over the raw first two segments (HMAC: textual equality via jwt_strcmp = 0 <-> equal). Cryptographic validity itself is the oracle; model tied to the code by systematic mutation of valid tokens for every key type on OpenSSL and GnuTLS against an independent EVP oracle.",
+   mods=["Jwt.Props.C01", "Jwt.Props.C05Ec"], files=["Jwt/Props/C01.lean", "Jwt/Props/C05Ec.lean", "Jwt/Lemmas/EcFrame.lean"], gen=1,
+   level="Lean theorem C01_sound for every Crypto oracle, JSON codec, provider, checker state, callback and token: rc=0 with a key => token splits at its first two dots, header alg = pinned alg, and the third segment is oracle-valid under that key/alg over the raw first two segments (HMAC: textual equality via jwt_strcmp = 0 <-> equal). For ES* the provider glue's r||s handling is inside the model (Jwt/EcFrame.lean over constants regenerated from both sign-verify.c): C01_ecdsa_exact_form proves that on either provider only the algorithm's exact 2w-octet form reaches the library, as the pair of integers it denotes. Cryptographic validity itself is the oracle; model tied to the code by systematic mutation of valid tokens for every key type on OpenSSL and GnuTLS against an independent EVP oracle.",
    assume=["base64 text malleability of the signature segment (same decoded bytes) is outside C01 for public-key algorithms and counted, not alarmed (DESIGN 10.1)"],
-   body='''    F.run_suites(ctx, model_ok, deep, [
+   body='''    import ecframe
+    ecframe.run(ctx, model_ok, deep)
+    F.run_suites(ctx, model_ok, deep, [
         ("verify-sig-openssl", lambda w, p, t, r: S.verify_sig(w, p, t, r, "openssl"), S.falsify_accept,
          "per key x admissible alg: valid token + header/payload char edits, segment swap, signature truncation/extension, every single-bit flip of the decoded signature, alt alphabet/padding, re-targeting to every other key/alg and to HMAC under public/empty key; distinct = distinct (answer, mutation class, key, alg)", False),
         ("verify-sig-gnutls", lambda w, p, t, r: S.verify_sig(w, p, t, r, "gnutls"), S.falsify_accept,
          "same mutation set under the GnuTLS provider", False),
+        ("key-lifecycle", S.key_lifecycle_suite, S.falsify_accept,
+         "per key type and provider: one keyring slot loaded, used, freed and re-loaded 6 (quick) / 12 (thorough) times with two keys of the same type and size in turn; after every re-load the retired key's token must fail and the current key's must verify", False),
         ("alg-matrix-sample", 150 if not (ctx.tier == "thorough" or deep) else None, S.falsify_accept,
          "sample of the C02 matrix cells (all cells in thorough)", False),
     ])'''),
@@ -83,6 +87,8 @@ specs = {
    body='''    F.run_suites(ctx, model_ok, deep, [
         ("reuse", S.reuse_suite, S.falsify_reuse,
          "all sequences of length 1-2 and 500 of length 3 (quick) / all to length 4 (thorough) over {valid, badsig, expired, nodot, onedot, badhdr, noalg, badpay, unsigned, NULL, empty, error_clear}, plus random sequences of length 5-60; reference = same token on a fresh checker", False),
+        ("key-lifecycle", S.key_lifecycle_suite, S.falsify_accept,
+         "per key type and provider: one keyring slot loaded, used, freed and re-loaded 6 (quick) / 12 (thorough) times with two keys of the same type and size in turn; after every re-load the retired key's token must fail and the current key's must verify", False),
         ("builder-reuse", S.builder_reuse_suite, S.falsify_builder_reuse,
          "all sequences to length 3 (quick) / 4 (thorough) over {ok, callback fails, weak key, callback selects inadmissible key/alg, unsigned, error_clear} + random longer ones; each generate compared with a fresh identically configured builder", False),
     ])'''),
